@@ -2162,17 +2162,28 @@ func (f *fragment) importPositions(set, clear []uint64, rowSet map[uint64]struct
 		f.incrementOpN(changedN)
 	}
 
-	// Update cache counts for all affected rows.
+	// Update cache counts for all affected rows. The rows the import emptied
+	// go first: they give up their cache entry before another row needs one
+	// (a mutex import moves columns between rows; a cache just large enough
+	// for the rows that have columns would otherwise evict one of them).
+	counts := make(map[uint64]uint64, len(rowSet))
 	for rowID := range rowSet {
 		// Invalidate block checksum.
 		delete(f.checksums, int(rowID/HashBlockSize))
 
 		if f.CacheType != CacheTypeNone {
 			n := f.storage.CountRange(rowID*ShardWidth, (rowID+1)*ShardWidth)
-			f.cache.BulkAdd(rowID, n)
+			if n == 0 {
+				f.cache.BulkAdd(rowID, 0)
+			} else {
+				counts[rowID] = n
+			}
 		}
 
 		f.rowCache.Add(rowID, nil)
+	}
+	for rowID, n := range counts {
+		f.cache.BulkAdd(rowID, n)
 	}
 
 	if f.CacheType != CacheTypeNone {
